@@ -581,6 +581,8 @@ impl SpeedLimitTrainSim {
 
         self.state.time += self.state.dt;
         self.state.offset += self.state.dt * vel_avg;
+        // keep the rear position of the saved row consistent with the new front position
+        self.state.offset_back = self.state.offset - self.state.length;
         self.state.total_dist += (self.state.dt * vel_avg).abs();
         self.state.speed += vel_change;
         if utils::almost_eq_uom(&self.state.speed, &speed_target, None) {
